@@ -467,7 +467,7 @@ func runTwin(x *Exec, prop string) {
 				}
 				c.Step("advance:1000")
 				desc := fmt.Sprintf("step %d %s %s %v", si, st.Kind, st.SQL, tvString(st.Args))
-				if st.Kind == "write" || st.Kind == "peer" {
+				if st.Kind == "write" || st.Kind == "peer" || st.Kind == "peer-blind" {
 					for _, kv := range keyOperands(st) {
 						if kv.T == "i" {
 							usedInts[kv.I] = true
@@ -692,6 +692,10 @@ func runTwin(x *Exec, prop string) {
 			for _, v := range cur {
 				wt, err := lay.WalkVersion(w.S.Bucket, v)
 				x.Check()
+				if leaked := wt.UncountedLeak(leakable); err == nil && leaked != nil {
+					fail("-rollback-leak", "version %s: entries written by a rolled-back transaction are stored in the committed tree uncounted (keys %v): %s", v, leaked, wt.Err())
+					return
+				}
 				if err != nil || !wt.OK() {
 					fail("-stored-tree", "version %s: %v %s", v, err, wt.Err())
 					return
